@@ -1170,6 +1170,8 @@ func (m *MW) StepInternal() {
 		return
 	}
 	amount := uint64(1 + m.T.Choose("int.amt", int(purse/4)))
+	lnFail := m.T.Chance("int.lnfail", 1, 4)
+	ambBefore := m.W.LN.Cfg.AmbiguousPct
 	m.rc.Op("internal")
 	ks := m.W.ActiveKeyset(mint)
 	m.begin()
@@ -1187,13 +1189,28 @@ func (m *MW) StepInternal() {
 		if ins == nil {
 			return
 		}
+		// now and then the Lightning backend fails while the mint settles the pair
+		if lnFail {
+			m.W.LN.Cfg.InvoiceErrPct, m.W.LN.Cfg.AmbiguousPct = 100, 100
+		}
 		r := m.User.Melt(mint, lq.ID, ins)
+		if lnFail {
+			m.W.LN.Cfg.InvoiceErrPct, m.W.LN.Cfg.AmbiguousPct = 0, ambBefore
+			m.rc.S.Probe("internal_settlement_backend_failure")
+		}
 		m.afterMelt(mint, lq, ins, r)
 		if r.OK() && RespState(r) == "PAID" {
 			m.rc.S.Probe("internal_settlement")
 			m.User.Mint(mint, q, m.W.NewOutputs(Split(amount), ks.ID), "")
 			// a second issuance must fail
 			m.Atk.Mint(mint, q, m.W.NewOutputs(Split(amount), ks.ID), "")
+		} else {
+			// not settled: the quote's invoice is unpaid, a mint request must be refused (the Book
+			// reports an issuance before payment, the audit the missing backing)
+			if ps, mr := m.Atk.Mint(mint, q, m.W.NewOutputs(Split(amount), ks.ID), ""); mr.OK() {
+				m.User.Purse[mint] = append(m.User.Purse[mint], ps...)
+				m.Atk.Purse[mint] = nil
+			}
 		}
 	})
 }
@@ -1209,6 +1226,36 @@ func (m *MW) TakeFor(mint string, need uint64) []*HProof {
 		ins = more
 	}
 	return ins
+}
+
+// StepRotateInterrupted: a runtime rotation meets a storage error at one of its storage calls and
+// the operator restarts the mint. Returns false if the mint did not come up again.
+func (m *MW) StepRotateInterrupted() bool {
+	mint := "A"
+	fees := m.Fees[mint]
+	fee := uint64(0)
+	if len(fees) > 0 {
+		fee = fees[m.T.Choose("irot.fee", len(fees))]
+	}
+	k := 1 + m.T.Choose("irot.k", 3)
+	m.rc.Op(fmt.Sprintf("rotate-interrupted(fee=%d, db_error@%d)+restart", fee, k))
+	node := m.W.Mints[mint]
+	r0 := m.rc.S.Seq()
+	m.rc.S.BeginEpisode(&FaultPlan{Node: mint, Kind: "db_error", SeamKind: "db", Pos: k})
+	m.rc.S.Run1(m.name("irot"), node.Inc, func() { node.M.RotateKeyset(uint(fee)) })
+	up := true
+	m.rc.Quietly(func() {
+		if err := m.W.RestartMint(mint, nil); err != nil {
+			m.W.Book.Violate("C09.load_fails", "interrupted rotation", "mint does not load after an interrupted rotation: %v", err)
+			up = false
+			return
+		}
+		m.W.RefreshKeysets(mint, fee)
+	})
+	m.keysCacheStale = false
+	m.rc.S.Probe("interrupted_rotation")
+	m.W.Book.NoteRotation(mint, r0)
+	return up
 }
 
 // StepRotateRuntimeConcurrent: Mint.RotateKeyset on the running mint while a swap and a
